@@ -13,7 +13,12 @@ from symex.values import FALSE, TRUE, SBool, SFloat, SInt, STime, mk_and, mk_eq,
 from .rel import Pair
 from . import c03, c08, c09, c10, c11, c12, c13, c14
 
-DATA_CARRIERS = ["list_none", "tuple_nan", "float32", "masked", "series", "series_idx", "dask", "int64", "uint16", "int8"]
+DATA_CARRIERS = ["list_none", "tuple_nan", "float32", "masked", "series", "series_idx", "dask", "int64", "uint16", "int8",
+                 "readonly", "bigendian", "strided", "object_none"]
+# the last four are the same float64 content behind another memory layout / flag / element type: in the model they are the
+# reference ndarray (byte order, strides and the element type of an object array that holds floats and None are not observable
+# there - a model contract), on the real stack every path witness and every probe goes through the real exotic array
+LAYOUT_CARRIERS = ("readonly", "bigendian", "strided", "object_none")
 INT_CARRIERS = {"int64": None, "uint16": (0, 2000), "int8": (-100, 100)}     # value range assumed for the narrow ones
 TIME_CARRIERS = ["us", "s", "ms", "pydt", "ts", "dti", "dti_utc", "ser", "ser_utc", "epoch_int", "epoch_float", "epoch_list"]
 
@@ -52,6 +57,10 @@ class CarrierKit:
             return K.flist(vals)
         if c == "tuple_nan":
             return tuple(vals)
+        if c == "readonly":
+            return K.readonly(K.farray(vals))
+        if K.sym and c in ("bigendian", "strided", "object_none"):
+            return K.farray(vals)
         if K.sym:
             base = snp.ndarray.from_list(vals, "float64", owner="caller")
             if c == "float32":
@@ -69,6 +78,14 @@ class CarrierKit:
                 return SymDask(base)
         else:
             import pandas as pd
+            if c == "bigendian":
+                return np.array(vals, dtype=">f8")
+            if c == "strided":
+                wide = np.full(2 * len(vals) + 1, 123456.0)
+                wide[1::2] = vals
+                return wide[1::2]
+            if c == "object_none":
+                return np.array([None if v != v else v for v in vals], dtype=object)
             if c == "float32":
                 return np.array(vals, dtype=np.float32)
             if c in INT_CARRIERS:
@@ -240,8 +257,10 @@ def jobs(tier):
         for c in DATA_CARRIERS:
             if not missing_ok and c == "masked":
                 continue
-            if isinstance(base, c03.ValidRange) and c in INT_CARRIERS:
-                continue      # valid_range_test compares in the data's own dtype: integer data needs an integer span (documented)
+            if isinstance(base, c03.ValidRange) and (c in INT_CARRIERS or c == "object_none"):
+                # valid_range_test compares in the data's own dtype: integer data needs an integer span (documented), and an
+                # object array has no numeric dtype to compare in (it raises TypeError on the unchanged tree; callers pass dtype=)
+                continue
             out.append(Carrier(base, data=c, integer=isinstance(base, c03.ValidRange) and c in ("list_none", "tuple_nan")))
     time_bases = [c10.RateOfChange(n), c11.FlatLine(n, 60), c12.Attenuated(n, "range", True), c10.Speed(2),
                   c08.Climatology(2, [M(None, True, False)], prop="C15"), c08.Climatology(2, [M("dayofyear", False, False)], prop="C15"),
